@@ -13,6 +13,7 @@ import (
 	"net/url"
 	"slices"
 	"sort"
+	"strconv"
 	"strings"
 
 	"cuelabs.dev/go/oci/ociregistry"
@@ -229,6 +230,7 @@ func c05(env *core.Env, unify bool) {
 		faultKind = "none"
 	}
 	faultAt := c.Range("fault.at", 0, 4)
+	vanish := c.Bool("fault.name-unknown", 1, 3)
 	fired := false
 	var bplan *reg.FaultPlan
 	if faultKind == "backend-iter" || faultKind == "member" {
@@ -237,6 +239,11 @@ func c05(env *core.Env, unify bool) {
 				return -1, nil
 			}
 			fired = true
+			if vanish {
+				// (what a member that is itself a client sees when the repository is
+				// deleted upstream between two pages)
+				return faultAt, fmt.Errorf("page %d: %w", faultAt, ociregistry.ErrNameUnknown)
+			}
 			return faultAt, ociregistry.NewError("injected listing failure", "VERIF_INJECTED", nil)
 		}}
 	}
@@ -290,9 +297,19 @@ func c05(env *core.Env, unify bool) {
 	// header, as the distribution specification lets it - either by naming the last
 	// item, or with a continuation token that only it understands.
 	ownLimit := 0
+	var hidden func(string) bool
 	if outer != nil && what != "Referrers" && c.Bool("registry-own-limit", 1, 4) {
 		ownLimit = c.Range("registry-own-limit.n", 1, 3)
-		outer.Handler = ownLimitRegistry(env, outer.Handler, ownLimit, c.Bool("registry-own-limit.token-links", 1, 2))
+		if layers[len(layers)-1].kind == "http" && c.Bool("registry-own-limit.hides", 1, 3) {
+			// ... and it hides some items, after cutting the page: a page can come out empty
+			salt := uint64(c.Int("registry-own-limit.salt", 1000))
+			hidden = func(name string) bool {
+				h := fnv.New64a()
+				fmt.Fprintf(h, "hide:%d:%s", salt, name)
+				return h.Sum64()%3 == 0
+			}
+		}
+		outer.Handler = ownLimitRegistry(env, outer.Handler, ownLimit, c.Bool("registry-own-limit.token-links", 1, 2), hidden)
 	}
 	if faultKind == "transport" {
 		tfault := []string{"drop-response", "status-500", "bad-json", "truncated-body", "drop-request"}[c.Int("tfault", 5)]
@@ -390,7 +407,7 @@ func c05(env *core.Env, unify bool) {
 	}
 	var expected []string
 	for _, x := range view {
-		if start == "" || x > start {
+		if (start == "" || x > start) && (hidden == nil || !hidden(x)) {
 			expected = append(expected, x)
 		}
 	}
@@ -428,12 +445,24 @@ func c05(env *core.Env, unify bool) {
 		outcome = "error"
 	}
 	env.Op(fmt.Sprintf("%s/%v/n%d/p%d/%s/stop%v/%s/%v/%s", what, stackDesc, len(backendItems), pageSize, startClass, stopAfter >= 0, faultKind, fired, outcome))
-	env.Logf("%s -> %v err=%v (expected %v, fault %s fired=%v)", op, got, res.ListErr, expected, faultKind, fired)
+	env.Logf("%s through %v (page %d, own limit %d) -> %v err=%v (expected %v, fault %s fired=%v)", op, stackDesc, pageSize, ownLimit, got, res.ListErr, expected, faultKind, fired)
+	if outer != nil {
+		for _, e := range outer.Log {
+			env.Logf("   %s %s -> %d Link=%q", e.Method, e.URL, e.Status, e.RespHeader.Get("Link"))
+		}
+	}
 	env.Sample("-> %v err=%v", got, res.ListErr)
 	if fired {
 		env.Fault("list:" + faultKind)
 	}
 	class := func(k string) string { return "C05/" + what + "/" + k }
+	if unify && vanish && bplan != nil && bplan.IterFaultsDelivered > 0 && bplan.IterItemsBeforeFault == 0 {
+		// A member that answers "name unknown" before it has delivered anything is a
+		// member that does not know the repository; the unifier rightly goes by the
+		// other one. Not a fault, and not what this run set out to look at.
+		env.Probe("c05:member-unknown-from-the-start")
+		return
+	}
 	if res.ExtraCalls > 0 {
 		env.Failf(class("consumer-called-after-end"), "%s: the iterator called its consumer %d more time(s) after it declined or after an error was delivered", op, res.ExtraCalls)
 	}
@@ -645,7 +674,7 @@ func c05large(env *core.Env) {
 
 // ownLimitRegistry is a registry in front of inner that never returns more than
 // limit items per list page.
-func ownLimitRegistry(env *core.Env, inner http.Handler, limit int, tokenLinks bool) http.Handler {
+func ownLimitRegistry(env *core.Env, inner http.Handler, limit int, tokenLinks bool, hidden func(string) bool) http.Handler {
 	return http.HandlerFunc(func(w http.ResponseWriter, req *http.Request) {
 		if !strings.HasSuffix(req.URL.Path, "/_catalog") && !strings.HasSuffix(req.URL.Path, "/tags/list") {
 			inner.ServeHTTP(w, req)
@@ -679,21 +708,55 @@ func ownLimitRegistry(env *core.Env, inner http.Handler, limit int, tokenLinks b
 					key = "repositories"
 				}
 				var items []string
-				if json.Unmarshal(doc[key], &items) == nil && len(items) > limit {
-					env.Fault("registry-cuts-page-to-own-limit")
-					items = items[:limit]
+				if json.Unmarshal(doc[key], &items) == nil {
+					cut := len(items) > limit
+					// (a registry that hides items cannot leave it to the client's "a full
+					// page means there may be more" rule, which the hiding breaks: it
+					// says so itself whenever the page it got was full)
+					nReq, _ := strconv.Atoi(orig.Get("n"))
+					full := hidden != nil && nReq > 0 && len(items) >= nReq
+					if cut {
+						env.Fault("registry-cuts-page-to-own-limit")
+						items = items[:limit]
+					}
+					lastItem := ""
+					if len(items) > 0 {
+						lastItem = items[len(items)-1]
+					}
+					if hidden != nil {
+						kept := []string{}
+						for _, it := range items {
+							if !hidden(it) {
+								kept = append(kept, it)
+							}
+						}
+						if len(kept) == 0 && cut {
+							env.Probe("c05:empty-page-with-link")
+						}
+						items = kept
+					}
 					doc[key], _ = json.Marshal(items)
 					body, _ = json.Marshal(doc)
-					next := url.Values{}
-					if n := orig.Get("n"); n != "" {
-						next.Set("n", n)
+					if cut || full {
+						next := url.Values{}
+						if n := orig.Get("n"); n != "" {
+							next.Set("n", n)
+						}
+						if tokenLinks {
+							next.Set("next_page", base64.RawURLEncoding.EncodeToString([]byte(lastItem)))
+						} else {
+							next.Set("last", lastItem)
+						}
+						hdr.Set("Link", fmt.Sprintf("<%s?%s>; rel=\"next\"", req.URL.Path, next.Encode()))
+					} else if hidden != nil && hdr.Get("Link") != "" && tokenLinks && lastItem != "" {
+						// (the inner server's own Link names its last item; keep it in this registry's style)
+						next := url.Values{}
+						if n := orig.Get("n"); n != "" {
+							next.Set("n", n)
+						}
+						next.Set("next_page", base64.RawURLEncoding.EncodeToString([]byte(lastItem)))
+						hdr.Set("Link", fmt.Sprintf("<%s?%s>; rel=\"next\"", req.URL.Path, next.Encode()))
 					}
-					if tokenLinks {
-						next.Set("next_page", base64.RawURLEncoding.EncodeToString([]byte(items[len(items)-1])))
-					} else {
-						next.Set("last", items[len(items)-1])
-					}
-					hdr.Set("Link", fmt.Sprintf("<%s?%s>; rel=\"next\"", req.URL.Path, next.Encode()))
 				}
 			}
 		}
